@@ -80,6 +80,7 @@ pub fn ctors() -> Vec<Ctor> {
         c1("has", |mut v| E::has(v.pop().unwrap(), "nick")),
         c1("has-q", |mut v| E::has(v.pop().unwrap(), "k y")),
         c1("has-path", |mut v| E::Has(b(v.pop().unwrap()), vec!["meta".into(), "rev".into()])),
+        c1("has-path3", |mut v| E::Has(b(v.pop().unwrap()), vec!["a".into(), "b".into(), "c".into()])),
         c1("set1", |v| E::Set(v)),
         c2("set2", |v| E::Set(v)),
         c1("rec1", |mut v| E::Rec(vec![("f".into(), v.pop().unwrap())])),
